@@ -36,7 +36,7 @@ from vf.core import CaseTimeout, Recorder
 PROPERTY = "C19"
 LEVEL = "exploration"
 RULE = (
-    "case = (NeuralUCB|NeuralTS, observation family vector(dim 2..8)|image|dict, arms 2..5, lambda in {0.5,1,2}, gamma in "
+    "case = (NeuralUCB|NeuralTS, observation family vector(dim 2..8)|image|dict, arms 2..5, lambda in {0.5,1,2} and (every fourth random case) {0.01,0.02,0.05,0.1,0.2,10}, gamma in "
     "{0.5,1,2}, head width, seed, op sequence over {act:N:p_mask, learn, mut:none|arch|param|act|rl_hp via "
     "Mutations.mutation, clone (then the parent keeps deciding, the clone is checked and continued), ckpt:load, "
     "ckpt:load_checkpoint}); contexts are seeded (incl. duplicated rows, a zero row, rows on the Box boundary), masks "
@@ -91,6 +91,7 @@ CASE_TIMEOUT_S = 3600  # the longest case costs ~2 cpu-s, but the machine is sha
 EPS32 = float(np.finfo(np.float32).eps)
 ALGOS = ["NeuralUCB", "NeuralTS"]
 LAMBS = [0.5, 1.0, 2.0]
+SMALL_LARGE_LAMBS = [0.01, 0.02, 0.05, 0.1, 10.0, 0.2]
 GAMMAS = [0.5, 1.0, 2.0]
 MUTS = ["none", "arch", "param", "act", "rl_hp"]
 
@@ -201,6 +202,8 @@ def cases(tier, seed):
         r = rng.random()
         obs = "vector" if r < 0.9 else ("image" if r < 0.95 else "dict")
         lamb = LAMBS[int(rng.integers(3))]
+        if i % 4 == 1:
+            lamb = SMALL_LARGE_LAMBS[(i // 4) % len(SMALL_LARGE_LAMBS)]  # "for every lambda": weak and strong regularisation
         gamma = GAMMAS[int(rng.integers(3))]
         drift = bool(rng.random() < 0.35)
         n_dec = int(rng.integers(lo, hi + 1))
